@@ -1002,6 +1002,46 @@ def gen_X_words():
             yield {"sp": "X3", "m": [[0, 4]], "ev": ev, "deco": [["words", t, "hello"]]}
 
 
+def gen_X_redundant_divisions():
+    """A divisions table with an entry that repeats the value before it (Part.set_quarter_duration leaves one behind
+    when it replaces a value: Part(quarter_duration=2), set(2, 3), set(2, 2)).  Uniform divisions q in {1, 2, 3} over
+    a 2/4 measure or two 1/4 measures with the repeated entry after the first quarter, and three 1/4 measures with
+    divisions (1,2,2), (2,2,1), (2,1,1), (1,1,2) (entries at the barlines); cores of <= 2 notes of voice 1 with a
+    time point at every entry; every declaration history of q_histories that ends in that table."""
+    for q in (1, 2, 3):
+        final = [[0, q], [q, q]]
+        hist = q_histories(final, (q, _third((q,))))
+        for two in (False, True):
+            meas = [[0, q], [q, 2 * q]] if two else [[0, 2 * q]]
+            durs = [d for d in range(1, q + 1) if M.sym_for(Fraction(d, q)) is not None]
+            alpha = [["n", s, e, 1, 1] for lo, hi in ((0, q), (q, 2 * q)) for (s, e) in spans(lo, hi, durs)]
+            for n in (1, 2):
+                for comb in combinations(alpha, n):
+                    if not (two or any(q in (x[1], x[2]) for x in comb)):
+                        continue
+                    for h in hist:
+                        yield {"sp": "X4", "q": final, "m": meas, "ts": [[0, 1, 4]] if two else [[0, 2, 4]],
+                               "ev": [list(x) for x in comb], "qh": h}
+    for qs in ((1, 2, 2), (2, 2, 1), (2, 1, 1), (1, 1, 2)):
+        bars = [0, qs[0], qs[0] + qs[1], sum(qs)]
+        final = [[bars[i], qs[i]] for i in range(3)]
+        hist = q_histories(final, tuple(sorted(set(qs))) + (_third(qs),))
+        meas = [[bars[i], bars[i + 1]] for i in range(3)]
+        alpha = []
+        for (lo, hi), q in zip(meas, qs):
+            durs = [d for d in range(1, hi - lo + 1) if M.sym_for(Fraction(d, q)) is not None]
+            alpha += [["n", s, e, 1, 1] for (s, e) in spans(lo, hi, durs)]
+        for n in (1, 2):
+            for comb in combinations(alpha, n):
+                for h in hist:
+                    yield {"sp": "X4", "q": final, "m": meas, "ts": [[0, 1, 4]], "ev": [list(x) for x in comb], "qh": h}
+
+
+def has_redundant_divisions_entry(case):
+    q = case.get("q") or []
+    return any(a[1] == b[1] for a, b in zip(q, q[1:]))
+
+
 def has_divisions_change_without_point(case):
     spec = expand(case)
     for p in M.iter_parts(spec):
